@@ -1307,6 +1307,14 @@ func verifyFuncVariant(prog *Prog, specs *Specs, fn *ssa.Function, variant strin
 		}
 		res = append(res, r)
 	}
+	// a site assertion whose text matches no statement no longer says anything about the code
+	for i, sa := range fs.Asserts {
+		if !x.firedAsserts[i] {
+			res = append(res, OblResult{Name: name + "#contract:", Status: "unbound", Kind: "contract", Func: name,
+				Detail: fmt.Sprintf("contract: site assertion at %q matches no statement of the function", sa.At)})
+			break
+		}
+	}
 	// a `reads` clause covers everything the body may read
 	if len(fs.Reads) > 0 && !fs.Trusted {
 		rs := x.fnReads(fn)
